@@ -58,3 +58,36 @@ def zsum(terms):
     for t in terms:
         out = out + t
     return out
+
+
+import z3 as _z3
+from fractions import Fraction as _Fraction
+
+
+def ratz(t):
+    """exact-real reading of a term computed by the real code in float32/float64: every rational numeral with a huge denominator
+    (a rounded k/20 mesh constant or a max_shifts literal such as 1.3) is replaced by the nearest fraction with denominator <= 10^4"""
+    t = t if isinstance(t, _z3.ExprRef) else _zr(t)
+    subs, seen, stack = [], set(), [t]
+    while stack:
+        u = stack.pop()
+        if u.get_id() in seen:
+            continue
+        seen.add(u.get_id())
+        if _z3.is_rational_value(u):
+            f = _Fraction(u.as_fraction())
+            if f.denominator > 10 ** 6:
+                g = f.limit_denominator(10 ** 4)
+                if abs(float(g) - float(f)) < 1e-6:
+                    subs.append((u, _z3.RealVal(g)))
+        else:
+            stack.extend(u.children())
+    return _z3.substitute(t, *subs) if subs else t
+
+
+
+
+def _zr(x):
+    from symx.core import lift, _real, _coerce
+
+    return _real(lift(_coerce(x)))
